@@ -86,6 +86,12 @@ theorem net_passive {K : Type} [CommRing K] (registers : List Nat) (cmds : List 
       (netSpecP (fun m => (compileP registers cmds).regs.idxOf m) (compileP registers cmds).n cmds) :=
   compileP_net registers cmds hreg hwf
 
+/-- the driver evaluates the model with tabulation after every iteration; that is the same function -/
+theorem driver_runs_the_model {K : Type} [Zero K] [One K] [Add K] [Mul K] [Neg K] [DecidableEq K]
+    (registers : List Nat) (c : List (GCmd K)) (p : List (PCmd K)) :
+    compileGUFast registers c = compileGU registers c ∧ compilePFast registers p = compileP registers p :=
+  ⟨compileGUFast_eq registers c, compilePFast_eq registers p⟩
+
 /-- **mergeCert_sound.**  If `checkMerge` accepts the witness extracted from a `gaussian_merge` run and
 every emitted block means the ordered product of its member commands (this is `net_symplectic` for the
 block, re-validated numerically per instance), then the compiled circuit means the same as the source in
@@ -136,6 +142,9 @@ example : (compileGU (List.range 10) exCmds).regs = [1, 8] ∧ (compileGU (List.
     (List.range 4).map ((compileGU (List.range 10) exCmds).S 0) = [0, 0, 1, 0] ∧
     (List.range 4).map (compileGU (List.range 10) exCmds).r = [-3, 0, 2, -3] ∧
     (compileGU (List.range 10) exCmds).dgates = [(1, -3, 2), (8, 0, -3)] := by decide
+
+example : compileGUFast (List.range 10) exCmds = compileGU (List.range 10) exCmds :=
+  (driver_runs_the_model (List.range 10) exCmds ([] : List (PCmd Int))).1
 
 def exP : List (PCmd Int) :=
   [ { regs := [8], op := .one 2 3 }, { regs := [8, 1], op := .two cx cxi, dagger := true },
